@@ -32,7 +32,7 @@ def events_check(prop):
             _run(prop, "ops4-dev2-cb3", "thorough", 4, 2, 3, 2, 0.9),
             _run(prop, "ops5-dev2-cb2-alt", "thorough", 5, 2, 2, 2, 0.97, alt=True),
         ],
-        deadline=dict(quick=200, thorough=3000),
+        deadline=dict(quick=400, thorough=4500),
         bounds=dict(quick="union of five exhaustive explorations, 2 descriptors unless stated: (<=5 main-context operations, <=2 deviations, <=1 callback action), (<=4, <=2, <=2), (<=5, <=1, <=2), (5,2,1) with the alternative timer alphabet (events_timer_register_double; 30-day timer beyond INT_MAX ms), and (5,1,1) with 4 descriptors (poll answers then include: one descriptor hung up AND exactly one other event ready)",
                     thorough="union of six exhaustive explorations: (<=6 ops, <=2 deviations, <=2 callback actions, 2 descriptors), (5,2,2) with 3 descriptors, (7,2,1), (5,3,2), (4,2,3), and (5,2,2) with the alternative timer alphabet"),
         assumptions=["poll(2), clock_gettime(2) replaced by the harness (link-time interposition)",
